@@ -83,6 +83,18 @@ pub fn spec(id: &str) -> Option<Spec> {
             total: Box::new(c07::total),
             generate: Box::new(c07::gen_case),
         }),
+        "C15" => Some(Spec {
+            id: "C15",
+            level: "exploration",
+            rule: "A case is a set of call histories, one per client thread (1..3 real OS threads; exactly one runs at a time, hand-over only at SimReader reads, Probe callbacks and between calls, the next holder taken from the explicit decision list). Alphabet: 24 basic calls (successful parses, failure midway through an anchored node, failure inside an RcAnchor context, Rc / Arc sharing, recursive anchors, budget and alias-limit breaches, missing / unknown field through serde's static constructors, restrictive visitor, reader parse with an I/O fault midway, iterator abandoned half-way, two iterators stepped alternately, serialisation of a shared graph, validating entry points incl. two failing fields, panicking and failing Probe types inside an anchor context) and nestings (outer, nest point k, inner) where a user Deserialize performs the inner call at nest point k. Enumerated: all single calls, all pairs, all triples over a 12-call core (thorough: all triples over the alphabet, all 4-histories over the core), every (outer, k, inner) nesting followed by sharing-sensitive calls; then random longer and multi-thread histories. Oracle: every call's canonical result (value, error variant + location, pointer-equality classes, Weak::upgrade) equals the same call on a fresh thread (isolation table, itself required to be identical on six fresh threads); an outer call is compared with the same outer call without nesting, the inner with its own entry. One evaluation = one call of the alphabet. Non-trivial = histories with more than one call, a nesting or several threads; distinct = distinct case digests.".into(),
+            assumptions: vec![
+                "thread_local state starts clean on a freshly spawned OS thread".into(),
+                "canonical results do not compare message text except for the two-failing-field validation calls (whose rendering must be stable)".into(),
+            ],
+            components: components(),
+            total: Box::new(c15::total),
+            generate: Box::new(c15::gen_case),
+        }),
         _ => None,
     }
 }
@@ -95,6 +107,7 @@ pub fn exec(case: &Case, st: &mut Stats) -> Vec<Viol> {
         Case::C09B(c) => c09::exec_borrow(c, st),
         Case::C11(c) => c11::exec(c, st),
         Case::C07(c) => c07::exec(c, st),
+        Case::C15(c) => c15::exec(c, st),
     }
 }
 
@@ -106,5 +119,6 @@ pub fn shrink_candidates(case: &Case) -> Vec<Case> {
         Case::C09B(c) => c09::shrink_borrow(c),
         Case::C11(c) => c11::shrink(c),
         Case::C07(c) => c07::shrink(c),
+        Case::C15(c) => c15::shrink(c),
     }
 }
